@@ -327,14 +327,12 @@ package smf
 //  - the running tick and time are those of entry k; an entry at the tick of its predecessor gets the predecessor's time;
 //  - the first entry, when it is not at tick 0, gets the duration of its ticks at 120 BPM (the stretch before the
 //    first tempo change), in whole microseconds;
-//  - the second entry, when it is at a later tick than the first, gets the time of the first plus the duration of the
-//    ticks in between at the tempo of the FIRST entry (not its own), in whole microseconds.
-// The same recurrence for every entry k of a map sorted up to k (hypothesis tcLast(map, k-1, tick_k - 1)) discharges
-// on the code as it is (4 s) but times out when the two lookups of the loop body are merely swapped (must-pass
-// corpus, benign/g9-6): too unstable to claim, so only k = 1 is stated. Not stated either: the closed form (a fold).
+// The next step of the recurrence (entry k of a map sorted up to k gets the time of entry k-1 plus the ticks in
+// between at the tempo of entry k-1) discharges on the code as it is (4 s) but times out when the two lookups of the
+// loop body are merely swapped (must-pass corpus, benign/g9-6), for general k and for k = 1 alike: too unstable to
+// claim, so it is not stated. Not stated either: the closed form (a fold).
 //@ macro usIs(us, ns) = real(int(us)) * 1000.0 <= ns && ns < real(int(us)) * 1000.0 + 1000.0
 //@ macro tfQ(s) = (uint16(bval(s.TimeFormat)) == 0 ? 960 : uint16(bval(s.TimeFormat)))
-//@ macro tcPrevDur(s, k) = durOf(tfQ(s), s.tempoChanges[k-1].BPM, uint32(s.tempoChanges[k].AbsTicks - s.tempoChanges[k-1].AbsTicks))
 //@ func (*SMF).calculateAbsTimes
 //@ requires tcsOK(s.tempoChanges)
 //@ modifies any(TempoChange).AbsTimeMicroSec
@@ -342,7 +340,6 @@ package smf
 //@ loop 0 invariant (rangeindex == -1 ==> (lasttcTick == 0 && lasttcTimeMicroSec == 0)) && (rangeindex >= 0 ==> (lasttcTick == s.tempoChanges[rangeindex].AbsTicks && lasttcTimeMicroSec == s.tempoChanges[rangeindex].AbsTimeMicroSec))
 //@ loop 0 invariant [P:C11] (rangeindex >= 1 && s.tempoChanges[rangeindex].AbsTicks == s.tempoChanges[rangeindex-1].AbsTicks) ==> s.tempoChanges[rangeindex].AbsTimeMicroSec == s.tempoChanges[rangeindex-1].AbsTimeMicroSec
 //@ loop 0 invariant [P:C11] (rangeindex == 0 && typeof(s.TimeFormat) == typeid(MetricTicks) && s.tempoChanges[0].AbsTicks > 0 && s.tempoChanges[0].AbsTicks < 4294967296 && durOf(tfQ(s), 120.0, uint32(s.tempoChanges[0].AbsTicks)) >= 0.0 && durOf(tfQ(s), 120.0, uint32(s.tempoChanges[0].AbsTicks)) < 9223372036854775808.0) ==> usIs(s.tempoChanges[0].AbsTimeMicroSec, durOf(tfQ(s), 120.0, uint32(s.tempoChanges[0].AbsTicks)))
-//@ loop 0 invariant [P:C11] (rangeindex == 1 && typeof(s.TimeFormat) == typeid(MetricTicks) && s.tempoChanges[0].AbsTicks >= 0 && s.tempoChanges[0].AbsTicks < s.tempoChanges[1].AbsTicks && s.tempoChanges[1].AbsTicks < 4294967296 && tcPrevDur(s, 1) >= 0.0 && tcPrevDur(s, 1) < 9223372036854775808.0) ==> usIs(s.tempoChanges[1].AbsTimeMicroSec - s.tempoChanges[0].AbsTimeMicroSec, tcPrevDur(s, 1))
 //@ loop 0 decreases len(s.tempoChanges) - rangeindex
 
 //@ func (*SMF).finishTempoChanges
